@@ -298,6 +298,9 @@ static void add_char(UINT32 ch, bool is_literal)
       cpd.column      = 1;
       cpd.did_newline = true;
       cpd.spaces      = 0;
+      // the pending '\r' is now written; without this the recursive calls
+      // below (tab converted to spaces) would write the newline again
+      cpd.last_char = '\n';
    }
 
    // convert a newline into the LF/CRLF/CR sequence
